@@ -18,6 +18,7 @@ RULE = ("random small feasible instances of SetCover (weighted/unweighted, int a
         "where the statement covers it; formulation size <= 18 variables. Non-trivial = instance with >= 2 feasible and "
         ">= 1 infeasible decoded solutions; distinct = digest of (class, instance, weights)"
         ' Also: zero-weight subsets, star-shaped set systems, duplicate-orientation edges and self loops, job dicts keyed by ints / gaps / mixed types, exact integers around 1e9..1e12 in NumberPartitioning, dict solutions in shuffled insertion order, defaults with B > 1, second call after result edits.')
+RULE += " Rounds 9-10: AlternatingSectorsChain ground energy against the documented sector rule, an earlier solve_bruteforce call with other weights on the same instance."
 TIERS = {"quick": {"shards": 8, "cases": 300}, "thorough": {"shards": 16, "cases": 5000}}
 FLOOR_BASE = {"quick": 60, "thorough": 1000}    # case counts the floors below were calibrated for; the launcher scales them
 CLASSES = ["SetCover", "VertexCover", "BILP", "JobSequencing", "GraphPartitioning", "NumberPartitioning", "AlternatingSectorsChain"]
